@@ -309,10 +309,17 @@ def run() -> int:
         what = f"are_sigma_separated({b['a']}, {b['b']} | {b['C']}) on nodes={b['nodes']} di={b['di']} bi={b['bi']}: {b['observed']} (native validation corpus)"
         rep.add_violation(Violation(PROP, [f"native {b['a']} {b['b']} {b['C']}"], what, {"property": PROP, **b}))
     rep.extra.update({"states": max(states, 1), "transitions": max(rep.obligations, 1), "traces_validated_against_impl": cnt})
+    from .. import history_runs
+
+    history_runs.run(rep, PROP)
     return rep.finish()
 
 
 def replay(payload: dict) -> int:
+    if payload.get("kind") == "history":
+        from .. import history_runs
+
+        return history_runs.replay(PROP, payload)
     from y0.dsl import Variable as V
 
     r = native_case([V(n) for n in payload["nodes"]], [(V(u), V(v)) for u, v in payload["di"]], [(V(u), V(v)) for u, v in payload["bi"]], V(payload["a"]), V(payload["b"]), [V(c) for c in payload["C"]], payload["acyclic"])
